@@ -3,6 +3,18 @@
 import json, subprocess
 
 CHECKS = {
+ "C10": ("property-based testing over generated types x values x production histories, against a width-free tree model of the two bit layouts",
+         "Exploration with a reference model (model::layout): every generated (type, value) is materialised through a drawn API history and compared bit-by-bit with the definition of the padded and compact layouts; decoders are checked for exact consumption, accessors/constructors for inversion on every sub-value, prune for the modelled projection (smaller, equal, incompatible targets; two-step = one-step).",
+         "Trusted: model::layout (written from the layout definition, unit-tested), G-ty/G-val generators. For targets that are incompatible only off the taken path the oracle accepts None or a well-formed value of exactly the target type (DESIGN §6 C10 soundness note). Widths are capped at 4096 (quick) / 65536 (thorough) bits for cost only.",
+         "DESIGN.md §6 C10"),
+ "C11": ("property-based testing over triples of values built through independent production histories, against structural equality of model trees",
+         "Exploration with a reference model: == must coincide with equality of (model type, model tree) for values produced by different histories (garbage padding, sub-value at a bit offset, prune, machine output); equal => equal Hash; cmp total, antisymmetric, transitive on triples, Equal <=> ==; same for Word.",
+         "Trusted: model::layout, the production histories of gen::values (each built value is first checked to denote the intended element, as in C10). Hash is observed through SipHasher with fixed keys.",
+         "DESIGN.md §6 C11"),
+ "C18": ("exhaustive enumeration of all DAG shapes up to 6 (thorough: 7) nodes + property-based testing of random shapes up to 300 nodes, against a recursive specification and a validity predicate",
+         "Exploration, exhaustive for small shapes: an own DagLike implementation over bare shapes is iterated with NoSharing, InternalSharing and a class tracker modelling identity-hash sharing; post-order, right-to-left post-order, pre-order, verbose pre-order (with and without depth limit) and is_shared_as are compared with a recursive seen-set specification and an independent validity predicate (consecutive indices, children earlier, reported child indices hold the actual children).",
+         "Trusted: the recursive specification in harness/src/props/c18.rs. MaxSharing on real CommitNode/RedeemNode DAGs is exercised by the C01 check, not here.",
+         "DESIGN.md §6 C18"),
  # id: (technique, level text, level note, design ref)
  "C13": ("property-based testing (proptest-driven choice streams) + exhaustive enumeration of naturals, against a from-scratch reference coder and a Vec<bool> stream model",
          "Exploration with a reference model. Naturals are enumerated exhaustively for 1..2^17 and +-2000 around every power of two to 2^33 at 12 result types and several bounds; arbitrary byte strings are decoded against a reference decoder (uniqueness of encoding); writer/reader op sequences, windows and collect_bits are compared with a bit-vector model. Finds wrong bits, counters, truncation and close() errors on everything generated; proves nothing beyond that.",
